@@ -176,7 +176,7 @@ theorem top_sim (all : List String) (tef : C.TyEnv) (glf : List (String × Ty ×
     refine ⟨[s'], rfl, ?_⟩
     have hext : Ext all acc.te tef := ⟨hsub, fun x hx => .inr (hallf x hx)⟩
     have hokf := okNested_ext hext hok
-    have htrf := trNested_ext hokf htr
+    have htrf := trNested_ext hext.1 hokf htr
     have hsim := Sim1_mono hle ((sim all f).1 tef false 0 _ s' stp stc stp' hokf hall htrf hst hpy)
     show TopOut _ _ _ _ (execList tef F [s'] stc)
     rw [execList_single]
